@@ -4,11 +4,11 @@ CONSTANTS
   MaxOps = 3
   MaxCrashes = 1
   SnapEvery = 2
-  RotAfter = 1
+  RotAfter = 2
   FixCompactOrder = TRUE
   SeedSeqFromSnapshot = TRUE
   AnyRot = FALSE
-  MaxBatch = 0
+  MaxBatch = 2
   PostUnlinkPersist = TRUE
   WithUmeta = FALSE
 INIT Init
@@ -16,4 +16,5 @@ NEXT Next
 INVARIANT CrashSafe
 INVARIANT Quiescent
 INVARIANT SeqFresh
+INVARIANT BatchAllOrNothing
 CHECK_DEADLOCK FALSE
